@@ -13,7 +13,6 @@ package main
 import (
 	"encoding/json"
 	"fmt"
-	"hash/fnv"
 	"math/rand"
 	"os"
 	"path/filepath"
@@ -75,9 +74,12 @@ func c29Lit(s string) []c29Piece { return []c29Piece{{1, []byte(s)}} }
 
 func c29Ostr(s string) string {
 	if len(s) > c29LitMax {
-		h := fnv.New32a()
-		h.Write([]byte(s))
-		return fmt.Sprintf("(Dig %d %d)", len(s), h.Sum32())
+		// djb2 on 40 bits, as Check.C29.fnv
+		h := uint64(5381)
+		for i := 0; i < len(s); i++ {
+			h = (h*33 + uint64(s[i])) & (1<<40 - 1)
+		}
+		return fmt.Sprintf("(Dig %d %d)", len(s), h)
 	}
 	return "(Lit " + coqlit.Bytes(s) + ")"
 }
@@ -347,11 +349,7 @@ func (c29) Gen(seed int64, tier string, emit func(any)) {
 		}
 		return out
 	}
-	// design-phase witnesses
-	emit(c29Case{"witness-long", []c29Session{{Writes: [][]c29Piece{c29Lit("first"), c29Big(70004, "x", "out "), c29Lit("third")}}}})
-	emit(c29Case{"witness-torn", []c29Session{
-		{Writes: lit("first"), Torn: &c29Torn{c29Lit("second"), -7}},
-		{Writes: lit("third", "fourth")}}})
+	// (the design-phase witnesses are in corpus/C29/witnesses.case)
 
 	// torn write at EVERY byte offset of the last write, then one or two more sessions
 	bases := []struct {
@@ -400,26 +398,28 @@ func (c29) Gen(seed int64, tier string, emit func(any)) {
 		}
 	}
 
-	// long entries around the old 64 KiB scanner limit and up to 200 KiB
-	sizes := []int{65535 - 70, 65535 - 60, 65535 - 55, 65535 - 50, 65536 - 45, 65536, 65537, 70000, 200 * 1024}
+	// long entries around the old 64 KiB scanner limit and up to 200 KiB (costly to
+	// evaluate in Coq: spread over the shards, see below)
+	bigs := []c29Case{}
+	sizes := []int{65536 - 62, 65536 - 52, 65536 - 45, 70000, 200 * 1024}
 	if thorough {
-		for d := -75; d <= -40; d++ {
+		for d := -75; d <= -40; d += 2 {
 			sizes = append(sizes, 65536+d)
 		}
-		sizes = append(sizes, 131072, 100000, 150000)
+		sizes = append(sizes, 65536, 65537, 131072, 100000, 150000)
 	}
 	for i, n := range sizes {
 		unit := "0123456789"
 		if i%3 == 1 {
-			unit = "é\"\n<" // escapes make the line longer than the command
+			unit = "\u00e9\"\n<" // escapes make the line longer than the command
 		}
 		ss := []c29Session{{Writes: [][]c29Piece{c29Lit("before"), c29Big(n, unit, "out "), c29Lit("after")}}, {Writes: lit("later")}}
-		emit(c29Case{"big", ss})
+		bigs = append(bigs, c29Case{"big", ss})
 	}
-	emit(c29Case{"big-torn", []c29Session{
+	bigs = append(bigs, c29Case{"big-torn", []c29Session{
 		{Writes: lit("before"), Torn: &c29Torn{c29Big(70000, "ab", "out "), 66000}},
 		{Writes: lit("after")}}})
-	emit(c29Case{"big-torn", []c29Session{
+	bigs = append(bigs, c29Case{"big-torn", []c29Session{
 		{Writes: lit("before"), Torn: &c29Torn{c29Big(70000, "ab", "out "), -1}},
 		{Writes: lit("after")}}})
 
@@ -429,7 +429,12 @@ func (c29) Gen(seed int64, tier string, emit func(any)) {
 	if thorough {
 		n = 12000
 	}
+	every := n / (len(bigs) + 1)
 	for i := 0; i < n; i++ {
+		if i%every == 0 && len(bigs) > 0 {
+			emit(bigs[0])
+			bigs = bigs[1:]
+		}
 		ns := 1 + r.Intn(3)
 		ss := []c29Session{}
 		class := "random"
